@@ -143,6 +143,22 @@ namespace
     struct Child3 { static constexpr auto name = "c15_child3"; static Port<TS<Int>> compose(Wiring &w, Port<TS<Int>> x) { return wire<AddOne>(w, wire<Thrower>(w, wire<AddOne>(w, x), Int{0})); } };
     struct MapChild { static constexpr auto name = "c15_map_child"; static Port<TS<Int>> compose(Wiring &w, NamedPort<"key", TS<Int>> key, Port<TS<Int>> ts) { return wire<KeyThrower>(w, key, wire<AddOne>(w, ts)); } };
 
+    // a NON-capturing map_ inside a try_except_ sub-graph: a child's exception escapes the map and is captured by the enclosing try_except_
+    struct ChildMap { static constexpr auto name = "c15_child_map"; static Port<DictI> compose(Wiring &w, Port<DictI> d) { return wire<stdlib::map_>(w, fn<MapChild>(), d).template as<DictI>(); } };
+    using TryDictResult = UnNamedTSB<Field<"exception", TS<NodeError>>, Field<"out", DictI>>;
+    struct TryDictProbe
+    {
+        static constexpr auto name = "c15_try_dict_probe";
+        static void eval(In<"r", TryDictResult, InputValidity::Unchecked> r, DateTime now)
+        {
+            auto ex = r.template field<"exception">();
+            if (ex.valid() && ex.modified()) g->probes[20].push_back({rel(now), ex.base().value().as_bundle().at("error_msg").checked_as<Str>()});
+            auto o = r.template field<"out">();
+            if (o.valid() && o.modified())
+                for (auto [k, c] : o.modified_items()) if (c.valid()) g->probes[100 + static_cast<int>(k.template checked_as<Int>())].push_back({rel(now), std::to_string(static_cast<long>(c.value()))});
+        }
+    };
+
     struct Observed { std::map<int, std::vector<Tick>> probes; std::string exc; };
 
     Observed execute(char program, const Run &cfg)
@@ -154,7 +170,13 @@ namespace
         try
         {
             Wiring w;
-            if (program == 'm')
+            if (program == 'x')
+            {
+                auto d = wire<DictWriter>(w);
+                wire<TryDictProbe>(w, try_except_<ChildMap>(w, d).template as<TryDictResult>());
+                wire<DictProbe>(w, d, Int{300});
+            }
+            else if (program == 'm')
             {
                 auto d = wire<DictWriter>(w);
                 auto mapped = wire<stdlib::map_>(w, fn<MapChild>(), d).template as<DictI>();
@@ -211,6 +233,8 @@ namespace
         cfg.input_mask = static_cast<unsigned>(std::stoul(parts.at(1)));
         { auto ms = split(parts.at(2), ','); for (std::size_t i = 0; i < ms.size() && i < 4; ++i) cfg.throw_mask[i] = static_cast<unsigned>(std::stoul(ms[i])); }
         cfg.script = {"s1=5,s2=6", "s1=7", "s2=8,s3=9", "s1=10,s3=11", "s2=12"};
+        if (program == 'x' && cfg.input_mask == 2) cfg.script = {"s1=5,s2=6", "s1=7,s2=1", "s3=9", "s3=11,s2=4", "s1=2,s2=12"};
+        if (program == 'x' && cfg.input_mask == 3) cfg.script = {"s1=5", "s1=7", "s2=8", "s1=10", "s2=12,s3=1"};
         Run clean = cfg;
         for (auto &m : clean.throw_mask) m = 0;
         const Observed ref = execute(program, clean);
@@ -226,6 +250,27 @@ namespace
             if (!out.violation && stream(got, id) != stream(ref, id))
                 out.violation = std::string{what} + " differs from the fault-free run:\n with faults:" + show(stream(got, id)) + "\n fault-free :" + show(stream(ref, id));
         };
+        if (program == 'x')
+        {
+            // one key throws per cycle at most (the enumeration guarantees it); the throwing cycle's dictionary output is a don't-care,
+            // every other cycle must carry exactly the fault-free ticks of every key, and each throwing cycle exactly one error tick
+            std::set<long> throwing;
+            std::vector<Tick> want_err;
+            for (int k = 1; k <= 3; ++k)
+                for (auto &t : stream(ref, 100 + k)) if ((cfg.throw_mask[k] >> t.t) & 1u) { throwing.insert(t.t); want_err.push_back({t.t, msg_of(k, t.t)}); }
+            std::sort(want_err.begin(), want_err.end(), [](const Tick &a, const Tick &b) { return a.t < b.t; });
+            if (stream(got, 20) != want_err) out.violation = "error ticks are" + show(stream(got, 20)) + " but the children throw exactly in" + show(want_err);
+            for (int k = 1; k <= 3 && !out.violation; ++k)
+            {
+                expect_equal(300 + k, "the input dictionary (independent of the failing children)");
+                std::vector<Tick> g2, r2;
+                for (auto &t : stream(got, 100 + k)) if (!throwing.count(t.t)) g2.push_back(t);
+                for (auto &t : stream(ref, 100 + k)) if (!throwing.count(t.t)) r2.push_back(t);
+                if (!out.violation && g2 != r2) out.violation = "key " + std::to_string(k) + ": outside the throwing cycles the map inside try_except_ produced" + show(g2) + " but the fault-free run gives" + show(r2) + " (the failing sub-graph must evaluate normally again)";
+            }
+            out.nontrivial = !throwing.empty();
+            return out;
+        }
         if (program == 'm')
         {
             for (int k = 1; k <= 3; ++k)
@@ -291,6 +336,29 @@ void verif_enumerate(verif::Ctx &ctx)
                 }
                 else if (ctx.evaluations % 997 == 1) ctx.sample("cases", desc);
             }
+    // non-capturing map_ inside try_except_: 3 input scripts x throw sets in which at most one key throws per cycle, never in a cycle that creates a key
+    for (int script = 1; script <= 3; ++script)
+        for (unsigned m1 = 0; m1 < 32; ++m1) for (unsigned m2 = 0; m2 < 32; ++m2) for (unsigned m3 = 0; m3 < 32; ++m3)
+        {
+            if ((m1 & m2) || (m1 & m3) || (m2 & m3)) continue;                 // one thrower per cycle
+            if ((m1 | m2 | m3) & 0b00101u) continue;                            // cycles 0 and 2 create keys in scripts 1 and 3
+            if (script != 1 && ((m1 | m2 | m3) & 0b10100u)) continue;           // scripts 2 / 3 create keys in cycle 2 / 2 and 4
+            if ((m1 | m2 | m3) == 0 && script != 1) continue;
+            if (!ctx.next_is_mine()) continue;
+            const std::string desc = "x|" + std::to_string(script) + "|0," + std::to_string(m1) + "," + std::to_string(m2) + "," + std::to_string(m3);
+            ++ctx.evaluations; ++ctx.traces;
+            Outcome o = run_desc(desc);
+            ctx.transitions += o.ticks;
+            ctx.state(o.sig);
+            if (o.nontrivial) ctx.nontriv(desc);
+            ctx.count("cases_x");
+            if (o.violation)
+            {
+                Outcome o2 = run_desc(desc);
+                if (!o2.violation || *o2.violation != *o.violation) throw verif::HarnessError("case not reproducible: " + desc);
+                ctx.violation(desc, *o.violation, "x: " + o.violation->substr(0, 50));
+            }
+        }
     // keyed map: throw masks for keys 1..3 over the 5 cycles (each key throws in a subset of cycles)
     const unsigned per = th ? 32u : 8u;
     for (unsigned m1 = 0; m1 < 32; ++m1)
